@@ -3,8 +3,8 @@ CONSTANTS
   NB = 2
   NA = 2
   Delays = {1, 2}
-  Depth = 8
-  PrintPaths = FALSE
+  Depth = 6
+  PrintPaths = TRUE
 VIEW View
 INVARIANTS NoBadShape PathOut
 PROPERTIES StepMon
